@@ -34,6 +34,10 @@ impl Builder {
             return Err(Error::EmptySamplesMap);
         }
 
+        if sample_map.has_empty_population() {
+            return Err(Error::ConflictingSamples);
+        }
+
         // All samples in sample map should be in reader samples
         let reader_samples = HashSet::<_>::from_iter(reader.samples());
         if let Some(unknown_sample) = sample_map
@@ -131,6 +135,8 @@ impl Project {
 /// An error associated with building a site reader.
 #[derive(Debug)]
 pub enum Error {
+    /// Provided sample mapping lists a sample more than once with conflicting populations.
+    ConflictingSamples,
     /// Provided sample mappping is empty.
     EmptySamplesMap,
     /// I/O error.
@@ -164,6 +170,9 @@ impl From<ProjectionError> for Error {
 impl fmt::Display for Error {
     fn fmt(&self, f: &mut fmt::Formatter<'_>) -> fmt::Result {
         match self {
+            Error::ConflictingSamples => {
+                f.write_str("sample listed more than once with conflicting populations")
+            }
             Error::EmptySamplesMap => f.write_str("empty samples mapping"),
             Error::Io(e) => write!(f, "{e}"),
             Error::PathDoesNotExist { path } => {
